@@ -1,9 +1,149 @@
 import Driver.Util
+import Lattigo.Model.Gadget
+import Lattigo.Model.KeySwitch
 
+/-
+  C04 line protocol (see harness/c04.go):
+
+  dims  Q P lq lp w                                        → nI;n_0,…            (digit counts)
+  evk   comp kind N Q P lq lp w galEl s s2 A E [A2]        → shape|polys         (key generation)
+        comp 0 = plain, 1 = compressed (first components only), 2 = compressed then expanded with the
+        seed-regenerated stream A2;  kind gen|relin|gal
+  gp|gpl|apply|relin|aut|auth|autl  N Q P lq lp w isNTT galEl nbPi shape evk ct   → polys
+  A list of polynomials is `rows;rows;…` joined by `/`.
+-/
 namespace Driver.C04
-open Driver
+open Driver Lattigo Lattigo.KS
 
-/-- stub: replaced by the property's real handler -/
-def handle (_toks : List String) : String := badOp
+def parsePolys? (s : String) : Option (List (List (List Nat))) :=
+  if s == "-" then some [] else (s.splitOn "/").mapM parseMat?
+
+def parseIVecs? (s : String) : Option (List (List Int)) :=
+  if s == "-" then some [] else (s.splitOn "/").mapM parseIVec?
+
+def showPolys (ps : List RPoly) : String :=
+  if ps.isEmpty then "-" else "/".intercalate (ps.map fun p => showMat p.c)
+
+def mkPoly (qs : List Nat) (rows : List (List Nat)) : RPoly := { qs := qs, c := rows }
+
+def pairs {β : Type} : List β → List (β × β)
+  | b :: a :: rest => (b, a) :: pairs rest
+  | _ => []
+
+/-- moduli of a key / lazy result at levels (lq, lp); `lp = -1` ⇒ no P -/
+def levels (Q P : List Nat) (lq : Nat) (lp : Int) : List Nat × List Nat :=
+  (Q.take (lq + 1), if lp < 0 then [] else P.take (lp.toNat + 1))
+
+def handleDims (toks : List String) : Option String := do
+  match toks with
+  | [q, p, lq, lp, w] =>
+    let Q ← parseVec? q
+    let _P ← parseVec? p
+    let lq ← lq.toNat?
+    let lp ← lp.toInt?
+    let w ← w.toNat?
+    let nP := if lp < 0 then 0 else lp.toNat + 1
+    some (toString (baseRNSDecompositionVectorSize lq nP) ++ ";" ++
+      showVec (baseTwoDecompositionVectorSize Q nP w))
+  | _ => none
+
+def handleEvk (toks : List String) : Option String := do
+  match toks with
+  | comp :: kind :: n :: q :: p :: lq :: lp :: w :: galEl :: s :: s2 :: a :: e :: rest =>
+    let comp ← comp.toNat?
+    let n ← n.toNat?
+    let Q ← parseVec? q
+    let P ← parseVec? p
+    let lq ← lq.toNat?
+    let lp ← lp.toInt?
+    let w ← w.toNat?
+    let galEl ← galEl.toNat?
+    let s ← parseIVec? s
+    let A ← parsePolys? a
+    let E ← parseIVecs? e
+    let (qsQ, qsP) := levels Q P lq lp
+    let qs := qsQ ++ qsP
+    let flat := (A.map (mkPoly qs)).zip (E.map (RPoly.ofInts qs))
+    let sR := RPoly.ofInts qs s
+    let shape := gadgetShape Q (qsQ.length - 1) qsP.length w
+    let samples := reshape shape flat
+    let pg := pgElt qsQ qsP n w
+    let key ← match kind with
+      | "gen" => do
+          let s2 ← parseIVec? s2
+          some (genEvaluationKey pg sR (RPoly.ofInts qs s2) samples)
+      | "relin" => some (genRelinearizationKey pg sR samples)
+      | "gal" =>
+          let ginv := modInvGaloisElement n galEl
+          some (genGaloisKey (fun x => x.aut ginv) pg sR samples)
+      | _ => none
+    let shapeOut := key.map List.length
+    match comp with
+    | 0 => some (showVec shapeOut ++ "|" ++ showPolys (key.flatten.flatMap fun (b, a) => [b, a]))
+    | 1 => some (showVec shapeOut ++ "|" ++ showPolys (compress key).flatten)
+    | 2 => do
+        let a2 ← rest.head?
+        let A2 ← parsePolys? a2
+        let full := expand (compress key) (reshape shape (A2.map (mkPoly qs)))
+        some (showVec (full.map List.length) ++ "|" ++
+          showPolys (full.flatten.flatMap fun (b, a) => [b, a]))
+    | _ => none
+  | _ => none
+
+def handleKs (op : String) (toks : List String) : Option String := do
+  match toks with
+  | [n, q, p, lq, lp, w, _isNTT, galEl, nbPi, shape, evk, ct] =>
+    let _n ← n.toNat?
+    let Q ← parseVec? q
+    let P ← parseVec? p
+    let lq ← lq.toNat?
+    let lp ← lp.toInt?
+    let w ← w.toNat?
+    let galEl ← galEl.toNat?
+    let nbPi ← nbPi.toNat?
+    let shape ← parseVec? shape
+    let evkP ← parsePolys? evk
+    let ctP ← parsePolys? ct
+    let (qsQ, qsP) := levels Q P lq lp
+    let qsKey := qsQ ++ qsP
+    let key := reshape shape (pairs (evkP.map (mkPoly qsKey)))
+    let nQkey := qsQ.length
+    let lvlRows := (ctP.headD []).length
+    let qsCt := Q.take lvlRows
+    let cts := ctP.map (mkPoly qsCt)
+    let σ := fun (x : RPoly) => x.aut galEl
+    match op, cts with
+    | "gp", [c] =>
+        let r := gadgetProductR qsP w nQkey key c
+        some (showPolys [r.1, r.2])
+    | "gpl", [c] =>
+        let r := gadgetProductLazyR qsP w nQkey key c
+        some (showPolys [r.1, r.2])
+    | "apply", [c0, c1] =>
+        let r := applyEvaluationKey (gadgetProductR qsP w nQkey key c1) (c0, c1)
+        some (showPolys [r.1, r.2])
+    | "relin", [c0, c1, c2] =>
+        let r := relinearize (gadgetProductR qsP w nQkey key c2) (c0, c1, c2)
+        some (showPolys [r.1, r.2])
+    | "aut", [c0, c1] =>
+        let r := automorphism σ (gadgetProductR qsP w nQkey key c1) (c0, c1)
+        some (showPolys [r.1, r.2])
+    | "auth", [c0, c1] =>
+        let r := automorphism σ (gadgetProductHoistedR qsP nbPi nQkey key c1) (c0, c1)
+        some (showPolys [r.1, r.2])
+    | "autl", [c0, c1] =>
+        let r := automorphismHoistedLazy σ (gadgetProductHoistedLazyR qsP nbPi nQkey key c1)
+          (scaleByP qsP c0)
+        some (showPolys [r.1, r.2])
+    | _, _ => none
+  | _ => none
+
+def handle (toks : List String) : String :=
+  let r := match toks with
+    | "dims" :: rest => handleDims rest
+    | "evk" :: rest => handleEvk rest
+    | op :: rest => handleKs op rest
+    | _ => none
+  r.getD badOp
 
 end Driver.C04
